@@ -27,7 +27,7 @@ BL_EPS = {"blacklist", "refundUsers", "unblacklist"}
 PROPS = {
     "C01": dict(
         title="Ticket-payment solvency",
-        lean=["LP.Props.C01", "LP.Props.C01reach", "LP.Props.C01reachV2", "LP.Props.C01reachV1", "LP.Props.C01reachG1", "LP.Props.C14reach", "LP.Props.C14reachG", "LP.Props.AllVariants"],
+        lean=["LP.Props.C01", "LP.Props.C01reach", "LP.Props.C01reachV2", "LP.Props.C01reachV1", "LP.Props.C01reachG1", "LP.Props.C14reach", "LP.Props.C14reachG", "LP.Props.AllVariants", "LP.Props.C09nothing"],
         profiles=[("life", ALL_VARIANTS), ("chunks", ALL_VARIANTS)],
         R={"xf.pay": {"claim", "claimPayment", "blacklist", "refundUsers"},
            "st": ({"claim", "claimPayment"}, FUNDS_MSGS)},
@@ -35,7 +35,7 @@ PROPS = {
     ),
     "C02": dict(
         title="Launchpad-token solvency",
-        lean=["LP.Props.C02", "LP.Props.C01reachV2", "LP.Props.C01reachV1", "LP.Props.C01reachG1", "LP.Props.C13reachV2", "LP.Props.C14reachG", "LP.Props.C14feeLp", "LP.Props.C02reach"],
+        lean=["LP.Props.C02", "LP.Props.C01reachV2", "LP.Props.C01reachV1", "LP.Props.C01reachG1", "LP.Props.C13reachV2", "LP.Props.C14reachG", "LP.Props.C14feeLp", "LP.Props.C02reach", "LP.Props.AllVariants2", "LP.Props.C16reach"],
         profiles=[("life", ALL_VARIANTS), ("reserve", GUAR)],
         R={"st": [({"deposit"}, None), ({"claim", "claimPayment"}, FUNDS_MSGS)],
            "xf.lp": {"claim", "claimPayment"}, "lock": ANY},
@@ -43,7 +43,7 @@ PROPS = {
     ),
     "C03": dict(
         title="Exactly min(T, confirmed) distinct winners",
-        lean=["LP.Props.C03base", "LP.Props.C03final", "LP.Props.C01reach", "LP.Props.C01reachV2", "LP.Props.C01reachV1", "LP.Props.C01reachG1", "LP.Props.C14reach", "LP.Props.C14reachG"],
+        lean=["LP.Props.C03base", "LP.Props.C03final", "LP.Props.C01reach", "LP.Props.C01reachV2", "LP.Props.C01reachV1", "LP.Props.C01reachG1", "LP.Props.C14reach", "LP.Props.C14reachG", "LP.Props.AllVariants2"],
         profiles=[("life", ALL_VARIANTS), ("fy", ["base", "guarV2"]), ("chunks", GUAR), ("topup", GUAR)],
         R={"ret": {"select", "distribute"}},
         D={"nrw": SELECT_EPS, "status": SELECT_EPS, "cpay": SELECT_EPS, "last": SELECT_EPS, "addr.win": SELECT_EPS,
@@ -51,7 +51,7 @@ PROPS = {
     ),
     "C04": dict(
         title="Interrupted operations resume to the same result",
-        lean=["LP.Props.C04loop", "LP.Props.C08", "LP.Props.C04select", "LP.Props.C03final"],
+        lean=["LP.Props.C04loop", "LP.Props.C08", "LP.Props.C04select", "LP.Props.C03final", "LP.Props.C04unstuck"],
         profiles=[("chunks", ALL_VARIANTS), ("life", ALL_VARIANTS)],
         R={"ret": SELECT_EPS, "st": (SELECT_EPS, None), "draws": SELECT_EPS},
         D={k: SELECT_EPS for k in ["op", "status", "p2i", "batch", "flags", "nrw", "last", "cpay", "wl", "payers",
@@ -74,28 +74,28 @@ PROPS = {
     ),
     "C07": dict(
         title="Confirmation: exact payment, within allocation",
-        lean=["LP.Props.C07"],
+        lean=["LP.Props.C07", "LP.Props.C18reach"],
         profiles=[("life", ALL_VARIANTS)],
         R={"st": ({"confirm"}, None), "ev": {"confirm"}, "xf": {"confirm"}},
         D={"addr.conf": {"confirm"}, "bal.pay": {"confirm"}},
     ),
     "C08": dict(
         title="Filtering keeps exactly the confirmed tickets",
-        lean=["LP.Props.C08"],
+        lean=["LP.Props.C08", "LP.Props.C18reach"],
         profiles=[("life", ALL_VARIANTS)],
         R={"ret": {"filter"}, "st": ({"filter"}, None)},
         D={k: {"filter"} for k in ["addr.range", "addr.tix", "last", "nrw", "batch"]},
     ),
     "C09": dict(
         title="Each participant settles exactly once",
-        lean=["LP.Props.C09", "LP.Props.C01reachG1", "LP.Props.C14reach", "LP.Props.C13reachV2", "LP.Props.C14reachG", "LP.Props.C02reach"],
+        lean=["LP.Props.C09", "LP.Props.C01reachG1", "LP.Props.C14reach", "LP.Props.C13reachV2", "LP.Props.C14reachG", "LP.Props.C02reach", "LP.Props.C09nothing"],
         profiles=[("life", ALL_VARIANTS), ("vest", ["guarV1", "guarV2"])],
         R={"st": ({"claim"}, None), "xf": {"claim"}, "lock": {"claim"}, "sft": {"claim"}},
         D={k: {"claim"} for k in ["addr.cl", "addr.ut", "addr.uc", "addr.win", "addr.range", "addr.conf"]},
     ),
     "C10": dict(
         title="Blacklisting refunds in full and excludes; un-blacklisting restores",
-        lean=["LP.Props.C10", "LP.Props.C10frame", "LP.Props.C10reach"],
+        lean=["LP.Props.C10", "LP.Props.C10frame", "LP.Props.C10reach", "LP.Props.C09nothing"],
         profiles=[("life", ALL_VARIANTS), ("reserve", GUAR)],
         R={"st": [(BL_EPS, None), ({"confirm"}, ["blacklist"])], "xf": {"blacklist", "refundUsers"}},
         D={k: BL_EPS for k in ["addr.bl", "addr.conf", "addr.uts", "addr.bluts", "wl", "tg", "nrw", "payers",
@@ -103,14 +103,14 @@ PROPS = {
     ),
     "C11": dict(
         title="Guarantees honoured with the holder's own tickets",
-        lean=["LP.Props.C11topup", "LP.Props.C01reachV2", "LP.Props.C01reachV1", "LP.Props.C01reachG1", "LP.Props.C14reachG"],
+        lean=["LP.Props.C11topup", "LP.Props.C01reachV2", "LP.Props.C01reachV1", "LP.Props.C01reachG1", "LP.Props.C14reachG", "LP.Props.AllVariants2"],
         profiles=[("topup", GUAR), ("life", GUAR), ("chunks", GUAR)],
         R={"ret": {"distribute"}},
         D={"status": {"distribute", "secondary"}, "addr.win": {"distribute", "secondary"}, "nrw": {"distribute", "secondary"}},
     ),
     "C12": dict(
         title="Guarantee reserve conserved; leftovers re-drawn",
-        lean=["LP.Props.C12reserve", "LP.Props.C03final", "LP.Props.C01reachV2", "LP.Props.C01reachV1", "LP.Props.C01reachG1", "LP.Props.C14reachG"],
+        lean=["LP.Props.C12reserve", "LP.Props.C03final", "LP.Props.C01reachV2", "LP.Props.C01reachV1", "LP.Props.C01reachG1", "LP.Props.C14reachG", "LP.Props.AllVariants2"],
         profiles=[("reserve", GUAR), ("topup", GUAR), ("life", GUAR), ("chunks", GUAR)],
         R={"st": [(ALLOC_EPS | BL_EPS, RESERVE_MSGS), ({"deposit"}, ["Wrong amount"])],
            "draws": {"distribute"}},
@@ -142,7 +142,7 @@ PROPS = {
     ),
     "C16": dict(
         title="Locked split",
-        lean=["LP.Props.C16", "LP.Props.C02reach"],
+        lean=["LP.Props.C16", "LP.Props.C02reach", "LP.Props.C16reach"],
         profiles=[("life", ["locked", "lockedGuar"]), ("deploy", ["locked", "lockedGuar"])],
         R={"lock": ANY, "xf.lp": {"claim"}, "st": ({"deploy"}, None)},
         D={"lockcfg": ANY, "views.C16": ANY},
@@ -156,14 +156,14 @@ PROPS = {
     ),
     "C18": dict(
         title="Allocation",
-        lean=["LP.Props.C18"],
+        lean=["LP.Props.C18", "LP.Props.C18reach"],
         profiles=[("alloc", ALL_VARIANTS), ("life", ALL_VARIANTS)],
         R={"st": (ALLOC_EPS, None), "ev": {"addTicketsV2"}},
         D={k: ALLOC_EPS for k in ["addr.range", "addr.tix", "last", "batch", "addr.uts", "addr.utsview"]},
     ),
     "C19": dict(
         title="Pause",
-        lean=["LP.Props.C19", "LP.Props.C19frame"],
+        lean=["LP.Props.C19", "LP.Props.C19frame", "LP.Props.C04unstuck"],
         profiles=[("life", ALL_VARIANTS), ("vest", ["guarV2"])],
         R={"st": [(ANY, PAUSE_MSGS), ({"pause", "unpause"}, None)]},
         D={"paused": ANY, "views.C19": ANY},
